@@ -23,6 +23,8 @@ CLAIMS.update({
                 design="DESIGN.md section 5 C08"),
     "C13": dict(technique="static analysis: guard-relation/dominance, write-before-refusal (effect on paths) and operand-provenance rules over MIR",
                 design="DESIGN.md section 5 C13"),
+    "C16": dict(technique="static analysis: panic-precondition analysis with api (caller-controlled) sources, syntactic taint propagation and sanitisation by dominating guards, plus a guard-relation table for constructors/encoders/role checks",
+                design="DESIGN.md section 5 C16"),
     "C17": dict(technique="static analysis: interprocedural may-depend (explicit information flow, must-not-depend) over MIR with alias and closure handling",
                 design="DESIGN.md section 5 C17"),
     "C18": dict(technique="static analysis: interprocedural may-depend (must-depend queries per XOF binding), absorption-shape and guard-relation rules over MIR",
